@@ -62,8 +62,31 @@ def dedupe(xs):
     return out
 
 
+def run_variants(prop, exes, cases):
+    """several builds of one harness (e.g. one per compile-time minimum): every case goes to its build"""
+    sel = prop.harness["variant_of"]
+    groups = {}
+    for i, c in enumerate(cases):
+        groups.setdefault(sel(c), []).append(i)
+    impl = [None] * len(cases)
+    crashes = []
+    for key, idxs in groups.items():
+        if key not in exes:
+            for i in idxs:
+                impl[i] = "no-such-build"
+            continue
+        a, cr = core.run_impl(exes[key], [cases[i] for i in idxs], env=prop.env)
+        for i, x in zip(idxs, a):
+            impl[i] = x
+        crashes.extend((idxs[k] if k < len(idxs) else 0, kind, err) for k, kind, err in cr)
+    return impl, crashes
+
+
 def evaluate(prop, exe, cases):
-    impl, crashes = core.run_impl(exe, cases, env=prop.env)
+    if isinstance(exe, dict):
+        impl, crashes = run_variants(prop, exe, cases)
+    else:
+        impl, crashes = core.run_impl(exe, cases, env=prop.env)
     # cases behind the restart cap were not executed: they are dropped (and counted), never judged
     keep = [i for i, a in enumerate(impl) if a != "skipped"]
     if len(keep) != len(cases):
@@ -132,9 +155,22 @@ def run_check(prop, tier, seed, replay=None):
 
     # 3. harness -----------------------------------------------------------------
     h = prop.harness
-    okh, exe, hlog = core.build_harness(h["name"], h["source"], h.get("repo_srcs", ()),
-                                        h.get("flags", ()), h.get("extra_sources", ()),
-                                        h.get("san", True), "", h.get("shared_libs", ()))
+    if "variants" in h:
+        from concurrent.futures import ThreadPoolExecutor
+        def bv(kv):
+            key, vflags = kv
+            return key, core.build_harness(h["name"], h["source"], h.get("repo_srcs", ()),
+                                           list(h.get("flags", ())) + list(vflags), h.get("extra_sources", ()),
+                                           h.get("san", True), "-" + str(key), h.get("shared_libs", ()))
+        with ThreadPoolExecutor(len(h["variants"])) as ex:
+            built = list(ex.map(bv, h["variants"]))
+        okh = all(r[0] for _, r in built)
+        exe = {key: r[1] for key, r in built}
+        hlog = "\n".join(r[2] for _, r in built if not r[0])
+    else:
+        okh, exe, hlog = core.build_harness(h["name"], h["source"], h.get("repo_srcs", ()),
+                                            h.get("flags", ()), h.get("extra_sources", ()),
+                                            h.get("san", True), "", h.get("shared_libs", ()))
     cases, impl, model, verdicts, feats, crashes = [], [], [], [], [], []
     static_problems = []
     if not okh:
